@@ -72,6 +72,16 @@ class Note(NamedTuple):
         # bool(...) wrapper to satisfy mypy
         return bool(self._comparable() < other._comparable())
 
+    # tuple already defines these, so total_ordering wouldn't override them
+    def __le__(self, other) -> bool:
+        return bool(self._comparable() <= other._comparable())
+
+    def __gt__(self, other) -> bool:
+        return bool(self._comparable() > other._comparable())
+
+    def __ge__(self, other) -> bool:
+        return bool(self._comparable() >= other._comparable())
+
     def __str__(self):
         """
         Returns the note string as it would appear in note data.
